@@ -10,6 +10,11 @@ global size_of usize == 8;
 //@include prelude/std_contracts.rs
 //@include prelude/list_core_std.rs
 
+// the opaque digraph types (`lex_lt`, `vertex_seq` used by the tc_* predicates) and the trait-contract clauses tc_*
+//@include prelude/dg.rs
+//@include prelude/dg_ops.rs
+//@include units/inc/rep_trait_contracts_tc.inc.rs
+
 //@include units/inc/weighted_onw_usize.inc.rs
 } // verus!
 fn main() {}
